@@ -6,7 +6,7 @@
      - what zerv's own SemVer parser accepts it prints back unchanged.
    and, below, THE GRAMMAR THEOREMS: the printed string is in the grammar, for every object and at the level of the commands. *)
 From ZV Require Import Str Sanitize SanitizeSpec SanitizeProofs Zerv Render Convert SemVer Pep440 SemVerProofs NoPanicProofs ConvertProofs Bump Cli Flow
-                       RegexSrc PepWfProofs GrammarProofs OutputGrammar.
+                       RegexSrc PepWfProofs AsciiProofs GrammarProofs OutputGrammar ParseBack.
 From RelationAlgebra Require regex.
 
 (* any value a component contributes is the image of a sanitiser *)
@@ -39,6 +39,20 @@ Proof. exact semver_output_in_bnf. Qed.
 
 Theorem c01_pep440_in_grammar : forall z p, pep_of_zerv z = Some p -> regex.lang pep440_spec (map pep440_atom_of (pep_print p)).
 Proof. exact pep440_output_in_appendix_b. Qed.
+
+(* ... made only of ASCII characters of that grammar: letters, digits, '.', '-', '+' (SemVer); letters, digits, '.', '+', '!' (PEP 440) *)
+Theorem c01_semver_ascii : forall z, Forall (fun c => sv_char c = true) (semver_print (semver_of_zerv z)) /\
+                                     Forall (fun c => (c < 128)%N) (semver_print (semver_of_zerv z)).
+Proof. intros z. split; [apply semver_output_chars|apply semver_output_ascii]. Qed.
+
+Theorem c01_pep440_ascii : forall z p, pep_of_zerv z = Some p ->
+  Forall (fun c => pp_char c = true) (pep_print p) /\ Forall (fun c => (c < 128)%N) (pep_print p).
+Proof. intros z p H. split; [apply (pep_output_chars z p H)|apply (pep_output_ascii z p H)]. Qed.
+
+(* zerv's own SemVer parser accepts every SemVer string zerv prints and returns exactly the value that was printed (so `zerv check` accepts it
+   and re-rendering it in the same format returns it unchanged) *)
+Theorem c01_own_parser_accepts_semver : forall z, semver_parse (semver_print (semver_of_zerv z)) = Some (semver_of_zerv z).
+Proof. exact parse_back. Qed.
 
 (* the PEP 440 value is printable in normal form: non-empty release, every label carries its number, local segments are numbers or
    non-empty ASCII-alphanumeric strings *)
@@ -82,3 +96,6 @@ Print Assumptions c01_flow_semver.
 Print Assumptions c01_flow_pep440.
 Print Assumptions c01_render_semver.
 Print Assumptions c01_render_pep440.
+Print Assumptions c01_semver_ascii.
+Print Assumptions c01_pep440_ascii.
+Print Assumptions c01_own_parser_accepts_semver.
